@@ -1355,6 +1355,10 @@ class Interp:
             return True
         if isinstance(v, self.models.HeapSeq):
             return v.length(self, st) != 0
+        import re as _re
+
+        if isinstance(v, (_re.Pattern, _re.Match)):
+            return True  # concrete re objects (see attrs.re_method) are always truthy
         raise Unsupported("truth value of %r" % (v,))
 
     # iteration ----------------------------------------------------------------
